@@ -195,6 +195,38 @@ static void put_resolved(struct sock_addr ** sas)
 	for (i = 0; sas[i] != NULL; i++) { if (i) printf(" ; "); put_sa(sas[i]); }
 }
 
+/* ---- several addresses held at the same time ("multi") ----
+ * One snapshot: "[k=<sa>/<printed>/<dup>/<serialised> ... cmp=<one digit per pair i<j>>]" over the
+ * slots that hold an address, in slot order. */
+#define MULTI_MAX 16
+static void multi_snapshot(struct sock_addr ** held[], int nheld)
+{
+	int i, j;
+	printf("[");
+	for (i = 0; i < nheld; i++) {
+		const struct sock_addr * sa; struct sock_addr * sb; char * s;
+		uint8_t * buf = (uint8_t *)DRV_JUNKPTR; size_t buflen = 12345;
+		if (held[i] == NULL) continue;
+		sa = held[i][0];
+		printf("%d=", i); put_sa(sa); printf("/");
+		if ((s = sock_addr_prettyprint(sa)) == NULL) printf("null");
+		else { drv_puthex((uint8_t *)s, strlen(s)); drv_scribble_str(s); free(s); }
+		printf("/");
+		if ((sb = sock_addr_dup(sa)) == NULL) printf("error");
+		else { put_sa(sb); done_sa(sb); }
+		printf("/");
+		if (sock_addr_serialize(sa, &buf, &buflen)) printf("error");
+		else { drv_puthex(buf, buflen); drv_scribble_free(buf, buflen); }
+		printf(" ");
+	}
+	printf("cmp=");
+	for (i = 0; i < nheld; i++)
+		for (j = i + 1; j < nheld; j++)
+			if (held[i] != NULL && held[j] != NULL)
+				printf("%d", sock_addr_cmp(held[i][0], held[j][0]) != 0);
+	printf("]");
+}
+
 /* ---- endian ---- */
 static uint64_t endian_roundtrip(const char * fn, uint8_t * p, uint64_t x)
 {
@@ -356,6 +388,35 @@ int main(void)
 				sock_addr_free(sb);
 			}
 			sock_addr_free(sa);
+		} else if (n == 2 && strcmp(tok[0], "multi") == 0) {
+			/* a history over SEVERAL addresses: "+<string>" resolves into the next slot, "-<k>"
+			 * releases slot k (any order); after every step every address still held is printed,
+			 * duplicated, serialised and compared with every other one */
+			struct sock_addr ** held[MULTI_MAX]; int nheld = 0; char * op = tok[1];
+			int k;
+			while (op != NULL && *op) {
+				char * nx = strchr(op, ',');
+				if (nx != NULL) *nx++ = 0;
+				if (op[0] == '+' && nheld < MULTI_MAX) {
+					char * s = exact_string(op + 1);
+					struct sock_addr ** sas = sock_resolve(s);
+					drv_scribble_str(s); free(s);
+					if (sas != NULL && (sas[0] == NULL || sas[1] != NULL)) {
+						sock_addr_freelist(sas); sas = NULL;
+					}
+					held[nheld++] = sas;
+				} else if (op[0] == '-') {
+					k = (int)strtol(op + 1, NULL, 10);
+					if (k >= 0 && k < nheld && held[k] != NULL) {
+						sock_addr_freelist(held[k]); held[k] = NULL;
+					}
+				}
+				multi_snapshot(held, nheld);
+				op = nx;
+			}
+			for (k = 0; k < nheld; k++)
+				if (held[k] != NULL) sock_addr_freelist(held[k]);
+			printf("\n");
 		} else if (n == 2 && strcmp(tok[0], "aws") == 0) {
 			size_t len; uint8_t * f = drv_unhex(tok[1], &len, 0);
 			char * id = DRV_JUNKPTR; char * sec = DRV_JUNKPTR; char * fn; int rc;
